@@ -161,7 +161,11 @@ def check_call(contract, args, kwargs, tol=None):
         conds = []
         for T, cond in rz:
             ok, _ = S.evaluate(getattr(cond, "pos", cond))
-            conds.append((T, ok))
+            if hasattr(cond, "neg"):
+                nok, _ = S.evaluate(cond.neg)
+            else:
+                nok = not ok
+            conds.append((T, ok, nok))
         c.in_spec -= 1
         import warnings
 
@@ -177,11 +181,11 @@ def check_call(contract, args, kwargs, tol=None):
                 out.tb = traceback.format_exc(limit=4)
         label = contract.target.split(":")[1]
         if out.kind == "raise":
-            if not any(isinstance(out.exc, T) and ok for T, ok in conds):
+            if not any(isinstance(out.exc, T) and ok for T, ok, nok in conds):
                 out.failures.append(("%s:raises.allowed[%s]" % (label, type(out.exc).__name__), "raised %r but no raises-clause condition holds" % (out.exc,)))
             return out
-        for k, (T, ok) in enumerate(conds):
-            if ok:
+        for k, (T, ok, nok) in enumerate(conds):
+            if not nok:
                 out.failures.append(("%s:raises.required[%s#%d]" % (label, T.__name__, k), "returned normally although the contract requires %s" % T.__name__))
         c.in_spec += 1
         post = contract.ensures(wa, wrap(result))
